@@ -197,6 +197,20 @@ def _split_directory(name_term, marker):
     return pieces, ""
 
 
+def _same_percent(t, x):
+    """t is x brought to the percent grid: True for round(x*100)/100 (nearest, as prob_to_str rounds: idempotent on the grid);
+    False for a floor / ceil / int / trunc of x*100 (moves values that sit a hair beside the integer); None otherwise."""
+    from ..symx import mentions as _m
+    prod = (simp(("mul", (x, C(100)))), simp(("mul", (C(100), x))))
+    if t[0] == "div" and t[2] in (C(100), C(100.0)) and t[1][0] == "call" and t[1][1] == "round" and len(t[1][2]) == 1 and t[1][2][0] in prod:
+        return True
+    if t[0] == "call" and t[1] == "round" and len(t[2]) == 2 and t[2][0] == x and t[2][1] == C(2):
+        return None
+    if _m(t, lambda y: y[0] == "call" and y[1] in ("math.floor", "math.ceil", "int", "math.trunc")) or _m(t, lambda y: y[0] == "floordiv"):
+        return False
+    return None
+
+
 def template_rule(ctx, chk, rule, f, name_term, table, source_of, tail_spec, head, sx=None):
     """name_term: symbolic file name; table: [(prefix, parameter, through prob_to_str)]; source_of(param) -> expected hole term."""
     where = f.where()
@@ -262,11 +276,18 @@ def template_rule(ctx, chk, rule, f, name_term, table, source_of, tail_spec, hea
             inner = [t for t in C08_sub(got) if t == want_hole]
             matches = bool(inner) and got[0] == "call" and got[1] == "str"
         if not matches:
+            ok_before = ok
             ok = False
             others = [p for _, p, _ in table if p != param and any(t == source_of(p) for t in C08_sub(got))]
             if others:
                 chk.violation(rule, where, "file-name template: the prefix %r is followed by the value of %s, not of %s: the name misstates the parameters" % (prefix, others[0], param),
                               expected=show(want), found=show(got), construct="%s name hole %s" % (f.short, prefix))
+            elif is_prob and got[0] == "call" and got[1] == "prob_to_str" and len(got[2]) == 1 and _same_percent(got[2][0], want_hole) is True:
+                ok = ok_before
+                chk.ok(rule, where, "after %r: prob_to_str of the value rounded to its nearest whole percent (`round(x*100)/100`, the rounding prob_to_str itself applies): the same text" % prefix)
+            elif is_prob and got[0] == "call" and got[1] == "prob_to_str" and len(got[2]) == 1 and _same_percent(got[2][0], want_hole) is None:
+                chk.undecided(rule, where, "file-name template: after %r comes prob_to_str of `%s`, a transformed value of %s: whether it names the same percent is not decided" % (
+                    prefix, show(got[2][0])[:80], param))
             elif is_prob and any(t == want_hole for t in C08_sub(got)):
                 chk.violation(rule, where, "file-name template: %s is not written through prob_to_str: `%s`" % (param, show(got)), expected=show(want), found=show(got),
                               construct="%s name conversion %s" % (f.short, param))
